@@ -98,6 +98,9 @@ pub fn message_list_edits<S: Clone + 'static>(
             m[i].push(0);
             Some(set(s, m))
         }));
+        for b in [0x0au8, 0x20] {
+            v.push(ed(format!("{tag}[{i}] append {:02x}", b), &format!("{tag}-byte-extend"), false, move |s: &S| { let mut m = get(s).clone(); if i >= m.len() { return None; } m[i].push(b); Some(set(s, m)) }));
+        }
         for j in (i + 1)..l {
             v.push(ed(format!("{tag} swap [{i}]<->[{j}]"), &format!("{tag}-swap"), true, move |s: &S| {
                 let mut m = get(s).clone();
@@ -176,6 +179,13 @@ pub fn header_edits<S: Clone + 'static>(seed: u64, tag: &str, get: fn(&S) -> &Ve
         h.pop()?;
         Some(set(s, h))
     }));
+    // octets a careless normalisation would strip or fold: white space, NUL, 0xff, at either end
+    for b in [0x09u8, 0x0a, 0x0d, 0x20, 0xff] {
+        v.push(ed(format!("{tag} append {:02x}", b), &format!("{tag}-extend"), false, move |s: &S| { let mut h = get(s).clone(); h.push(b); Some(set(s, h)) }));
+    }
+    for b in [0x00u8, 0x20] {
+        v.push(ed(format!("{tag} prepend {:02x}", b), &format!("{tag}-extend"), false, move |s: &S| { let mut h = get(s).clone(); h.insert(0, b); Some(set(s, h)) }));
+    }
     v
 }
 
